@@ -219,6 +219,14 @@ class Monitor:
             n_timed = sum(1 for s in self.specs.values() if s.kind == "timed")
             if sd_reads < n_timed:
                 err("C15.M3", f"on_enable() re-read {sd_reads} dashboard values; expected at least the {n_timed} state durations")
+            # ... and each '<state>_duration' attribute is what the dashboard returned, not a function of it
+            for S_, sp_ in self.specs.items():
+                if sp_.kind != "timed":
+                    continue
+                dv = world["mode"].fields.get(S_ + "_duration")
+                direct = isinstance(dv, Ext) and "getNumber(" in dv.path
+                if dv is not None and not direct:
+                    err("C15.T2", f"after on_enable() the attribute '{S_}_duration' is {dv!r}: not the value the dashboard returned for it (a converted / truncated value makes the state last a different time than the dashboard says)")
         # post-state of entered states: expiry = entry + current duration attribute
         m = world["mode"]
         for S, (start_abs, site) in entries.items():
